@@ -437,7 +437,10 @@ func RunConc(s *kernel.Sim, prof *Profile, free bool) *Env {
 // setFileSizeLimit sets (n > 0) or lifts (n == 0) the process's soft file
 // size limit: the in-process way of making the disk "full" for one step.
 // SIGXFSZ is ignored (see TestMain), so writes fail with EFBIG.
-func setFileSizeLimit(n uint64) {
+func setFileSizeLimit(n uint64) { SetFileSizeLimit(n) }
+
+// SetFileSizeLimit: see setFileSizeLimit.
+func SetFileSizeLimit(n uint64) {
 	var lim syscall.Rlimit
 	if err := syscall.Getrlimit(syscall.RLIMIT_FSIZE, &lim); err != nil {
 		return
